@@ -16,7 +16,7 @@ DOCS = ['', ' first', ' second line', '  indented', ' with "quotes"', ' back\\sl
 def generate(rng, tier):
     n = 300 if tier == 'quick' else 6000
     o = gen.Opts(p_doc=0.6, p_priv=0.4, p_flags=0.5, p_packed=0.15, p_vftable=0.4, p_impl=0.5, p_base=0.4,
-                 p_extern_val=0.5, p_backend=0.0, max_modules=2, max_items=5, max_fields=4)
+                 p_extern_val=0.5, p_backend=0.0, max_modules=2, max_items=5, max_fields=4, p_underscore=0.2)
     out = []
     for i in range(n):
         c = gen.world(rng, 'w%d' % i, opts=o)
